@@ -189,6 +189,14 @@ class Case:
             out.add("C04-F27-repeated-composite-field")
         if any("ExtractOperationsPlugin" in p for p in self.sc.config.get("plugins", [])):
             out.add("C04-F32-plugin-written-module")
+        # a generated class (input / enum type name, pascal-cased fragment or operation name) called like a name the
+        # generated modules import and subscript or extend
+        from ariadne_codegen.utils import str_to_pascal_case as _pc
+        from graphql import is_enum_type, is_input_object_type
+        made = {n for n, t in self.schema.type_map.items() if is_enum_type(t) or is_input_object_type(t)}
+        made |= {_pc(f.name.value) for f in self.frags} | {_pc(o.name.value) for o in self.ops if o.name}
+        if made & SHADOWING_NAMES:
+            out.add("C04-F35-class-named-like-import")
         return out
 
     def replay(self, **extra) -> dict:
@@ -403,6 +411,16 @@ CORPUS = [
     ("fixed-F31", "query Q { e }", {}, "enum E { OK mro _name_ } input I { e: E = mro } type Query { e(i: I): E }"),
 ]
 
+# finding C04-F35: one minimised input per site
+_U = "type Query { u: U } type U { id: ID name: String l: [Int] }"
+CORPUS += [
+    ("F35-input-Optional", "query Q($i: Optional) { f(i: $i) }", {}, "type Query { f(i: Optional): Int } input Optional { a: Int b: [Int] }"),
+    ("F35-enum-List", "query Q($e: List) { f(e: $e) }", {}, "type Query { f(e: List): List } enum List { A B } input In { e: List l: [List] }"),
+    ("F35-fragment-Optional", "query Q { u { ...Optional name } } fragment Optional on U { id l }", {}, _U),
+    ("F35-operation-List", "query List { u { id l } }", {}, _U),
+    ("ok-type-names-that-do-not-shadow", "query Dict($i: Field) { f(i: $i) }", {},
+     "type Query { f(i: Field): Upload } enum Upload { A } input Field { a: Int e: Upload }"),
+]
 # every naming site (result field, input field, argument + variable, enum value and enum default) given ONE name that is
 # a keyword / pydantic attribute on its own, behind a leading underscore (trimmed for class fields) or in front of a
 # trailing one (the suffix the generator itself appends), with and without snake-casing: must generate and load
@@ -686,7 +704,12 @@ def judge(case: Case, g, ld) -> dict:
     return v
 
 
+# names the generated modules import and then subscript (typing) or extend (base classes): a generated class of that
+# name shadows the import
+SHADOWING_NAMES = {"Optional", "List", "Union", "Any", "Annotated", "Literal", "BaseModel", "AsyncBaseClient", "BaseClient"}
 SYMPTOMS = {
+    "C04-F35-class-named-like-import": lambda k, d: k == "import-failed" and (
+        "cannot be parametrized" in d or "cannot extend" in d or "KeyError" in d or "not subscriptable" in d),
     "C04-F23-unrelated-abstract-type-condition": lambda k, d: k == "generation-crash" and "ParsingError" in d and "not found in type" in d,
     "C04-F32-plugin-written-module": lambda k, d: (k == "reported-files" and "operations.py" in d)
                                      or (k == "import-failed" and ".operations'" in d) or (k == "modules-listed" and "operations" in d),
